@@ -4,6 +4,7 @@ use crate::core::*;
 use crate::e1::{self, eval::RefEnd, print::{Naming, Style}};
 use crate::pipeline::{self, End, Sources, Verdict};
 use crate::prelude::MiniPrelude;
+use crate::util::rng::Rng;
 use serde_json::json;
 
 pub fn def() -> PropertyDef {
@@ -31,6 +32,7 @@ fn generators(cfg: &Cfg) -> Vec<Generator> {
         Generator { name: "rename", total: cfg.tier.pick(700, 30_000), run: run_rename, case_cpu_limit_s: 120 },
         Generator { name: "hygiene", total: probes().len() as u64, run: run_probe, case_cpu_limit_s: 60 },
         Generator { name: "placement", total: placement_probes().len() as u64, run: run_placement, case_cpu_limit_s: 60 },
+        Generator { name: "repeated", total: cfg.tier.pick(120, 4000), run: run_repeated, case_cpu_limit_s: 60 },
     ]
 }
 
@@ -329,6 +331,109 @@ fn run_placement(_cfg: &Cfg, index: u64, stats: &mut Stats) {
                 generator: "placement".into(),
                 index,
                 detail: json!({"probe": name, "spelling": spelling, "expected_exit": code, "verdict": result.verdict.brief(), "observed_end": result.run.as_ref().map(|r| format!("{:?}", r.end)), "sources": sources.to_json()}),
+            });
+        }
+    }
+}
+
+/* ------------------------------------------------------------------------------------------------------------
+ * A name written more than once in ONE pattern. "Pattern components bind left to right": of two components with the
+ * same name the later one is the innermost binder, whatever the shape of the pattern around them. In the lexical
+ * forms (`let .. in`, `do`, abstraction, match arm) that is the only acceptable outcome. For a `that` contribution a
+ * second admissible outcome is the block's own "Duplicate definition" report (two `that` contributions of one name
+ * are rejected that way); which occurrence wins must in no case depend on the nesting of the pattern.
+ * ------------------------------------------------------------------------------------------------------------ */
+
+enum Shape {
+    Leaf(usize),
+    Tuple(Vec<Shape>),
+}
+
+fn gen_shape(rng: &mut Rng, depth: usize, next: &mut usize, budget: usize) -> Shape {
+    if depth == 0 || *next + 1 >= budget || rng.chance(1, 3) {
+        *next += 1;
+        return Shape::Leaf(*next - 1);
+    }
+    let n = 2 + rng.below(2);
+    Shape::Tuple((0..n).map(|_| gen_shape(rng, depth - 1, next, budget)).collect())
+}
+
+fn show_shape(s: &Shape, leaf: &dyn Fn(usize) -> String) -> String {
+    match s {
+        | Shape::Leaf(i) => leaf(*i),
+        | Shape::Tuple(items) => format!("({})", items.iter().map(|i| show_shape(i, leaf)).collect::<Vec<_>>().join(", ")),
+    }
+}
+
+fn run_repeated(cfg: &Cfg, index: u64, stats: &mut Stats) {
+    let mut rng = Rng::for_case(cfg.seed, "C07/repeated", index);
+    let mut leaves = 0usize;
+    let shape = loop {
+        leaves = 0;
+        let s = Shape::Tuple((0..2 + rng.below(2)).map(|_| gen_shape(&mut rng, 2, &mut leaves, 7)).collect());
+        if leaves >= 2 {
+            break s;
+        }
+    };
+    // names: one name is written at least twice; the others come from a small pool (further repetitions welcome)
+    let pool = ["x", "y", "z", "w", "x"];
+    let mut names: Vec<&str> = (0..leaves).map(|_| *rng.pick(&pool)).collect();
+    let a = rng.below(leaves);
+    let mut b = rng.below(leaves);
+    if a == b {
+        b = (a + 1) % leaves;
+    }
+    names[a] = "x";
+    names[b] = "x";
+    let last = names.iter().rposition(|n| *n == "x").unwrap();
+    let occurrences = names.iter().filter(|n| **n == "x").count();
+    let expected = (last + 1) as i64;
+    let pattern = show_shape(&shape, &|i| names[i].to_string());
+    let value = show_shape(&shape, &|i| format!("{}", i + 1));
+    let typed = |s: &Shape| -> String {
+        fn go(s: &Shape) -> String {
+            match s {
+                | Shape::Leaf(_) => "Int64".into(),
+                | Shape::Tuple(items) => format!("({})", items.iter().map(go).collect::<Vec<_>>().join(" * ")),
+            }
+        }
+        go(s)
+    };
+    let ty = typed(&shape);
+    let forms: Vec<(&str, bool, String)> = vec![
+        ("let-in", false, format!("let {pattern} = {value} in\n! exit x\n")),
+        ("do-bind", false, format!("do {pattern} <- ret {value};\n! exit x\n")),
+        ("abstraction", false, format!("(fn ({pattern} : {ty}) => ! exit x) {value}\n")),
+        ("match-arm", false, format!("match ({value} : {ty})\n| {pattern} => ! exit x\nend\n")),
+        ("let-that", true, format!("begin\n  let {pattern} = {value} that\n  ! exit x\nend\n")),
+        ("let-that-used-before", true, format!("begin\n  def ! go : OS = ! exit x that\n  let {pattern} = {value} that\n  ! go\nend\n")),
+    ];
+    stats.nontrivial(format!("{pattern}").as_bytes());
+    stats.cover("repeated_name_occurrences", &format!("{occurrences}"));
+    for (form, block, body) in forms {
+        let sources = Sources::single(format!("{}{}", MiniPrelude::core().text(), body));
+        let result = pipeline::check_and_run(&sources, b"", &[], 200_000);
+        stats.evaluations += 1;
+        let brief = result.verdict.brief();
+        let outcome = match (&result.verdict, &result.run) {
+            | (Verdict::Checked, Some(run)) => match run.end {
+                | End::Exit(c) if c as i64 == expected => "rightmost",
+                | End::Exit(_) => "other-occurrence",
+                | _ => "abnormal-end",
+            },
+            | (Verdict::Panic(_), _) => "panic",
+            | _ if block && brief.contains("Duplicate definition") => "duplicate-reported",
+            | _ => "rejected",
+        };
+        stats.cover("repeated_name_outcomes", &format!("{form}:{outcome}"));
+        let fine = outcome == "rightmost" || outcome == "duplicate-reported";
+        if !fine {
+            stats.violation(Violation {
+                signature: format!("name-repeated-in-one-pattern {outcome}"),
+                tags: vec![form.to_string()],
+                generator: "repeated".into(),
+                index,
+                detail: json!({"form": form, "pattern": pattern, "value": value, "expected_exit_if_accepted": expected, "verdict": brief, "observed_end": result.run.as_ref().map(|r| format!("{:?}", r.end)), "sources": sources.to_json()}),
             });
         }
     }
